@@ -99,9 +99,9 @@ def run(ctx, rep):
                 val = d.ast.value if isinstance(d.ast, ast.Assign) else None
                 if d.kind == "for":
                     # loop variable over dir(val): attribute names are str
-                    if A.call_name(d.owner.iter) == "dir":
+                    if isinstance(d.owner.iter, ast.Call) and A.call_name(d.owner.iter) == "dir":
                         continue
-                    val = None
+                    return False, "`%s` iterates over `%s` (arbitrary objects)" % (e.id, A.src(d.owner.iter))
                 if val is not None:
                     ok, w = encodable(d, val)
                     if ok:
